@@ -126,6 +126,20 @@ theorem new_mapping_eq (s : FState) (nv : Nat) (hs : s.numvar = nv) (n m : Int) 
       simp only [Py.tryExcept, Py.ok_bind]
       rw [add_variable_group_unary_eq s nv _ hs, Py.ok_bind, numberOfEdges_complete]
 
+/-- `new_sparse_mapping(B, label)` on a well-formed bipartite graph -/
+theorem new_sparse_mapping_eq (s : FState) (nv : Nat) (hs : s.numvar = nv) {G : BipG} (h : G.WF) (out : Except Err Unit) :
+    VariablesManager.new_sparse_mapping s (absBip G) out =
+      Py.tryExcept out Err.indexError (Except.error Err.valueError) (fun _ =>
+        Except.ok (unarySelf nv G, { s with numvar := ((nv + G.numberOfEdges : Nat) : Int) })) := by
+  unfold VariablesManager.new_sparse_mapping
+  have hb : ¬ ¬ ((absBip G).is_bipartite = true) := by simp [absBip]
+  rw [if_neg hb, hs, gen_unary_init_eq nv h]
+  cases out with
+  | error e => simp only [Py.tryExcept]; split <;> rfl
+  | ok u =>
+    simp only [Py.tryExcept, Py.ok_bind]
+    rw [add_variable_group_unary_eq s nv _ hs, Py.ok_bind]
+
 theorem range'_eq_idx (n : Nat) : List.range' 1 n = idx n := by
   simp [idx, rangeN_eq_range']
 
